@@ -123,6 +123,34 @@ def run(chk):
             chk.violation(signature(m), dict(m, how='ReferenceTest.assert%s on real files with preprocess = "replace one letter by the '
                                                      'other"; expected verdict = that of the replaced pair' % entry))
     chk.coverage['preprocess_decides_cases'] = npre
+    # a preprocess that is not idempotent (drops the first line, as one would drop a header): applied once, to both sides
+    ndrop = 0
+    heads = [r for r in cand if len(r['A']) >= 2 and len(r['E']) >= 2]
+    for i in range(1500 if thorough else 300):
+        r = rnd.choice(heads)
+        r2 = index.get(json.dumps([r['A'][1:], r['E'][1:]]))
+        r3 = index.get(json.dumps([r['A'][2:], r['E'][2:]]))
+        if r2 is None or r3 is None:
+            continue
+        ks = [k for k in range(tl.NOPTS) if r2['dem'][k] and r3['dem'][k] and r2['spec'][k] != r3['spec'][k]]
+        if not ks:
+            continue
+        k = rnd.choice(ks)
+        v = rnd.randrange(3)
+        o = tl.opt_of(k)
+        kw = tl.kwargs_of(o, v)
+        kw['preprocess'] = lambda ls: ls[1:]
+        entry = ['string', 'file', 'files'][i % 3]
+        got, msg = tl.call_entry(ref, entry, tl.lines(r['A'], v), tl.lines(r['E'], v), kw, wd, True, True, tag='h%d' % (i % 50))
+        ndrop += 1
+        want = 'pass' if r2['spec'][k] else 'fail'
+        if got != want:
+            m = {'A': r['A'], 'E': r['E'], 'opts': o, 'observed': got, 'expected': want, 'entry': entry,
+                 'final_newline': [True, True], 'preprocess': True, 'variant': v, 'message': msg[:300]}
+            chk.violation(signature(m), dict(m, how='ReferenceTest.assert%s on real files with preprocess = "drop the first line"; expected '
+                                                     'verdict = that of the pair without its first lines' % entry))
+    chk.coverage['preprocess_drop_header_cases'] = ndrop
+    chk.coverage['replayed_cases'] += ndrop
     chk.coverage['replayed_cases'] += npre
     chk.coverage['replayed_cases'] += nsens
     for i in range(nsample):
